@@ -689,6 +689,7 @@ pub fn replay_one(s: &Suite, cfg: &Cfg, beh: &Value) -> Value {
     let steps = beh["steps"].as_array().unwrap();
     let check_from = beh["check_from"].as_u64().unwrap_or(0) as usize;
     let mut checked = 0;
+    let tracing = std::env::var("HCV_TRACE").is_ok();
     for (i, st) in steps.iter().enumerate() {
         let v = st["v"].as_str().unwrap();
         if v == "any" {
@@ -707,6 +708,9 @@ pub fn replay_one(s: &Suite, cfg: &Cfg, beh: &Value) -> Value {
         }
         match (v, res.outcome) {
             ("ok", Outcome::Ret(o)) => {
+                if tracing {
+                    eprintln!("step {} {}: {}", i, st["act"]["op"], observe(s, &o, true));
+                }
                 if checking {
                     match compare(s, &st["out"], &o) {
                         Ok(true) => {}
